@@ -126,6 +126,14 @@ def _rpar(ctx, c, e):
             if r.shape != exp.shape or not np.allclose(r, exp, rtol=1e-14) or not (np.all(np.isfinite(r)) and np.all(r > 0)):
                 ctx.violation("rpar", f"estimate_prox_parameter(alpha={alpha}) = {r.tolist()}, exact {exp.tolist()} for m={m.tolist()}, W={W.tolist()}", {"case": c})
                 return
+    # the same problem in other units (powers of two, exact): heavy bodies, tiny force directions.  r scales like mass / direction^2
+    for kw, km in ((-10, 0), (-20, 0), (0, 30), (0, 60), (-40, 10), (15, -20)):
+        sw, sm = 2.0 ** kw, 2.0 ** km
+        exp = e["lcm"] / np.array(e["den"], dtype=float) * sm / (sw * sw)
+        r = np.asarray(estimate_prox_parameter(1.0, csc_array(W * sw), diags(m * sm).tocsc()), dtype=float)
+        if r.shape != exp.shape or not (np.all(np.isfinite(r)) and np.all(r > 0)) or not np.allclose(r, exp, rtol=1e-14, atol=0):
+            ctx.violation("rpar:scaled", f"estimate_prox_parameter for W * 2^{kw}, m * 2^{km} = {r.tolist()}, exact {exp.tolist()} for m={m.tolist()}, W={W.tolist()}", {"case": c, "scales": [kw, km]})
+            return
     # general SPD mass matrix and full-column-rank W: positive and finite (and equal to the definition)
     rng = np.random.default_rng(len(str(c)))
     A = rng.normal(size=(3, 3)); M = A @ A.T + 3 * np.eye(3)
